@@ -113,7 +113,11 @@ NewEv(lvl, ctx) == LET b0 == IF lvl THEN Scalar(<<"{">>) ELSE <<"{">> IN
                    IF Len(ctx) > 1 THEN ObjData(b0, ctx) ELSE b0
 EvOf(b, ops) == LET F[i \in 0..Len(ops)] == IF i = 0 THEN b ELSE Apply(ops[i], F[i-1], FALSE) IN F[Len(ops)]
 \* msg(): hooks that add a field, then the message, end marker, line break
-HookFields(b, hooks) == LET F[i \in 0..Len(hooks)] == IF i = 0 THEN b ELSE (IF hooks[i] = "field" THEN Scalar(F[i-1]) ELSE F[i-1]) IN F[Len(hooks)]
+\* hook kinds: "field" (a user hook adding one field), "noop", "discard", and the two hooks the library itself installs:
+\* "ts" = Context.Timestamp() and "caller" = Context.Caller(), which add their field at HOOK position, not at context position
+FieldHooks == {"field", "ts", "caller"}
+LibraryHooks == {"ts", "caller"}
+HookFields(b, hooks) == LET F[i \in 0..Len(hooks)] == IF i = 0 THEN b ELSE (IF hooks[i] \in FieldHooks THEN Scalar(F[i-1]) ELSE F[i-1]) IN F[Len(hooks)]
 Discarded(p) == \E i \in 1..Len(p.hooks) : p.hooks[i] = "discard"
 \* what the model says the writer receives
 Render(p) == LET c == IF p.with THEN CtxOf(p.ctx) ELSE <<>>
@@ -163,10 +167,12 @@ KeysOf(op, id, d) ==
     [] op = "errstackStr" -> << <<d, "stack">>, <<d, id>> >>
     [] op = "errstackObj" -> << <<d, "stack">>, <<d + 1, "frame">>, <<d, id>> >>
 PhaseKeys(ops, names) == LET F[i \in 0..Len(ops)] == IF i = 0 THEN <<>> ELSE F[i-1] \o KeysOf(ops[i], names[i], 0) IN F[Len(ops)]
-HookKeys(hooks, names) == LET F[i \in 0..Len(hooks)] == IF i = 0 THEN <<>> ELSE F[i-1] \o (IF hooks[i] = "field" THEN << <<0, names[i]>> >> ELSE <<>>) IN F[Len(hooks)]
+HookKeys(hooks, names) == LET F[i \in 0..Len(hooks)] == IF i = 0 THEN <<>> ELSE F[i-1] \o (IF hooks[i] \in FieldHooks THEN << <<0, names[i]>> >> ELSE <<>>) IN F[Len(hooks)]
 ExpectedKeys(p, n) == (IF p.lvl THEN << <<0, n.lvl>> >> ELSE <<>>)
                       \o (IF p.with THEN PhaseKeys(p.ctx, n.ctx) ELSE <<>>) \o PhaseKeys(p.ev, n.ev) \o HookKeys(p.hooks, n.hooks)
                       \o (IF p.msg THEN << <<0, n.msg>> >> ELSE <<>>)
 \* every hook runs exactly once, in order, whatever the others did
-ExpectedHookRuns(p) == Len(p.hooks)
+\* (the library's own hooks cannot record their run: the user hooks are the recording ones; RecIdx = their positions)
+RecIdx(hooks) == LET F[i \in 0..Len(hooks)] == IF i = 0 THEN <<>> ELSE (IF hooks[i] \in LibraryHooks THEN F[i-1] ELSE Append(F[i-1], i)) IN F[Len(hooks)]
+ExpectedHookRuns(p) == Len(RecIdx(p.hooks))
 =============================================================================
